@@ -96,6 +96,10 @@ func c03Exec(run *ev.Run, c ev.Case) {
 	}
 	r := rng(s.Seed+int64(s.Suite)*17, "c03"+s.Order+s.Class)
 	cfg := defaultCfg(r)
+	if (s.Seed+int64(s.Suite)+int64(len(s.Order)))%3 == 0 {
+		// two-key login: the BMC holds a K_G that is not the user's password
+		cfg.KG = rbytes(r, 20)
+	}
 	su := stdSuites()[s.Suite%9]
 	var b *refbmc.BMC
 	var st *bmc.V2SessionlessTransport
@@ -188,6 +192,7 @@ func c03Exec(run *ev.Run, c ev.Case) {
 	defer cancel()
 	sess, err := st.NewV2Session(ctx, &bmc.V2SessionOpts{
 		SessionOpts:  bmc.SessionOpts{Username: cfg.Username, Password: cfg.Password, MaxPrivilegeLevel: ipmi.PrivilegeLevelAdministrator},
+		KG:           cfg.KG,
 		CipherSuites: []ipmi.CipherSuite{libSuite(su)},
 	})
 	if err != nil {
